@@ -54,14 +54,30 @@ func cmdCrashChild(f hx.Flags, r *hx.Result) {
 	default:
 		cfg["appender.out.type"] = "Console"
 	}
+	twin := f.Str("twin", "") != "" && kind != "console"
+	if twin { // a second appender of the same kind on the same file: two descriptors, one target
+		for k, v := range cfg {
+			if strings.HasPrefix(k, "appender.out.") {
+				cfg["appender.out2."+strings.TrimPrefix(k, "appender.out.")] = v
+			}
+		}
+	}
 	ex := map[string]string{}
 	if f.Str("layoutat", "appender") == "logger" {
 		ex["layout.type"] = layout // the logger formats and hands bytes to the appender's Write
 	} else {
 		cfg["appender.out.layout.type"] = layout
 	}
-	cfg.AddLogger("lg", "Logger", "", "crash_tag", []sys.Ref{{Ref: "out"}}, false, ex)
+	refs := []sys.Ref{{Ref: "out"}}
+	if twin {
+		if f.Str("layoutat", "appender") != "logger" {
+			cfg["appender.out2.layout.type"] = layout
+		}
+		refs = append(refs, sys.Ref{Ref: "out2"})
+	}
+	cfg.AddLogger("lg", "Logger", "", "crash_tag", refs, twin, ex)
 	handle := log.GetLogger("lg")
+	padSweep := f.Int("padsweep", 0) // > 0: call i pads with padsweep+i bytes, so line lengths sweep a contiguous range
 	if kind == "rolling" && f.Str("churn", "") != "" {
 		// every clock reading is one interval later than the previous one: every call rotates, and the
 		// rotating goroutine dawdles between closing the older file and publishing the new one
@@ -93,7 +109,11 @@ func cmdCrashChild(f hx.Flags, r *hx.Result) {
 					// a raw write through the named handle is a log call too; give it the shape of a text line
 					_, _ = handle.Write([]byte(fmt.Sprintf("[RAW] id=%d||pad=%s||end=%d\n", id, crashPad(id), id)))
 				} else {
-					log.Info(ctx, tag, log.Int("id", id), log.String("pad", crashPad(id)), log.Int("end", id))
+					pad := crashPad(id)
+					if padSweep > 0 {
+						pad = strings.Repeat("s", padSweep+i)
+					}
+					log.Info(ctx, tag, log.Int("id", id), log.String("pad", pad), log.Int("end", id))
 				}
 				// the call has returned: acknowledge it
 				mu.Lock()
@@ -154,6 +174,10 @@ func cmdCrash(f hx.Flags, r *hx.Result) {
 			if kind == "rolling" && n%4 < 2 {
 				args = append(args, "--churn", "1")
 			}
+			twin := kind != "console" && n%5 == 0
+			if twin {
+				args = append(args, "--twin", "1")
+			}
 			if c.How == "exit" {
 				args = append(args, "--exitafter", strconv.Itoa(c.K))
 			} else {
@@ -213,14 +237,19 @@ func cmdCrash(f hx.Flags, r *hx.Result) {
 				for _, line := range strings.Split(text[:i], "\n") {
 					id, _ := sys.ParseLine([]byte(line))
 					okEnd := strings.HasSuffix(line, fmt.Sprintf("end=%d", id)) || strings.HasSuffix(line, fmt.Sprintf(`"end":%d}`, id))
-					if id > 0 && okEnd && strings.Contains(line, crashPad(id)) {
+					if id > 0 && okEnd && (strings.Contains(line, crashPad(id)) || strings.Contains(line, "pad=sss") || strings.Contains(line, `"pad":"sss`)) {
 						complete[id]++
 					}
 				}
 			}
 			desc := map[string]any{"crash": c, "kind": kind, "layout": layout, "acked": len(acked)}
+			wantCount := 1
+			if twin {
+				wantCount = 2 // both appenders append their own copy; none may overwrite the other's
+			}
+			desc["twin_appenders"] = twin
 			for _, id := range acked {
-				if complete[id] != 1 {
+				if complete[id] != wantCount {
 					r.Violate("acked-line-missing:"+kind, desc, "call %d was acknowledged before the %s but its complete line occurs %d times in the target", id, c.How, complete[id])
 					break
 				}
